@@ -63,7 +63,8 @@ def gen_balanced(rng, depth, budget):
             budget[0] -= 2
             out.append('pu:%d' % k + (':1=20' if k == 6 else ''))
             out += gen_balanced(rng, depth + 1, budget)
-            out.append('po:%d' % k)
+            closer = {1: 3, 2: 4}.get(k) if rng.random() < 0.5 else None   # \end{env} instance / \endname macro
+            out.append('po:%d' % (closer or k))
         else:
             budget[0] -= 1
             out.append(rng.choice(LOCAL_OPS))
@@ -259,6 +260,19 @@ class ScopeOracle:
         return 'd=%d m=%s l=%s c=%s' % (len(self.scopes), ','.join(ms), ','.join(ls), ','.join(str(self.code(c)) for c in CHARS))
 
 
+def closes(a, b):
+    """Spec.Balanced.closes on the object pool: same object, or the \\end instance of the same class, or a macro named end<name>;
+    never the parent node of the frame's object"""
+    if a == b:
+        return True
+    if a == '0' or b == '0':
+        return False
+    pool = {str(i): (p, t, me, nm) for i, p, t, me, dl, nm in POOL}
+    pa, ta, _, na = pool[a]
+    pb, tb, meb, nb = pool[b]
+    return str(pb) != a and ((ta == tb and bool(meb)) or nb == 'end' + na)
+
+
 def is_balanced(ops):
     st = []
     for w in ops:
@@ -268,7 +282,10 @@ def is_balanced(ops):
                 return False
             st.append(k)
         elif w.startswith('po'):
-            if not st or st.pop() != w.split(':')[1]:
+            if not st:
+                return False
+            a, b = st.pop(), w.split(':')[1]
+            if not closes(a, b):
                 return False
     return not st
 
@@ -282,6 +299,7 @@ def judge(o):
     else:
         o.spec = '-'
         o.prop_ok = True
+        o.in_domain = False         # unbalanced history: outside the property's quantifier
 
 
 def shrink(ctx, o, evaluate):
